@@ -25,7 +25,21 @@ func oracleC04(p *Plan, res *Result, exact bool) *common.Fail {
 	acceptIdx := map[int]int{}
 	read := map[int]int{}
 	nAccepted := 0
+	closing := false
+	late := map[int]bool{}
 	for i, e := range evs {
+		if e.K == "close>" {
+			// Once the application has called Close the receiver's duties end: whether a request that still arrives (a
+			// reconnect that was under way may even complete) is acknowledged is not prescribed, and nothing more can be
+			// delivered. What Close itself owes is C10's subject.
+			closing = true
+		}
+		if closing && (e.K == "dlv" || e.K == "out") && (e.Svc == "TunnelReq" || e.Svc == "TunnelRes") {
+			if e.K == "dlv" && e.Svc == "TunnelReq" {
+				late[e.Tag] = true // may or may not still reach the application
+			}
+			continue
+		}
 		if e.K == "dlv" && e.Svc == "TunnelReq" && w.ph == phConnected && e.Ch == w.ch {
 			if w.epoch != expEpoch {
 				exp, expEpoch = 0, w.epoch
@@ -87,6 +101,9 @@ func oracleC04(p *Plan, res *Result, exact bool) *common.Fail {
 	sort.Ints(ts)
 	for _, t := range ts {
 		a, r := accepted[t], read[t]
+		if late[t] && a == 0 && r <= 1 {
+			continue
+		}
 		switch {
 		case r > a && a == 0:
 			return failTrace(evs, len(evs)-1, "delivered-not-accepted", "the application read telegram %d, which the reference receiver never accepted (wrong channel / out of sequence / repetition)", t)
@@ -151,7 +168,10 @@ func genPlanC04(rt *rapid.T, realClock bool) *Plan {
 			g.Repeat = rapid.IntRange(1, 4).Draw(rt, "repeat") // back-to-back copies: the 2nd.. are repetitions of the previous number
 		}
 		if !c.TCP && rapid.IntRange(0, reconnectOdds).Draw(rt, "reconnect") == 0 {
-			g = GwStep{AfterUs: g.AfterUs, Kind: "discreq", Chan: "cur"}
+			g = GwStep{AfterUs: g.AfterUs, Kind: "discreq", Chan: "cur", Tag: g.Tag}
+			if rapid.IntRange(0, 2).Draw(rt, "behind") == 0 {
+				g.Behind = rapid.IntRange(1, 4).Draw(rt, "behind-n")
+			}
 		}
 		total += g.AfterUs
 		p.Gw = append(p.Gw, g)
